@@ -2,8 +2,12 @@ SPEC = dict(
     props_file="Props/C04.v",
     level="proof",
     observers=[dict(cmd="obs_fault", imports=["Model.Pipe"], case_type="Pipe.case", check="Pipe.check_case", shard=10,
-                    n={"quick": 100, "thorough": 420}, timeout={"quick": 900, "thorough": 5400})],
-    rule="each case = a scripted exchange (2-6 goroutines keeping synchronous, pipelined, batched, client-side-cached calls, a Receive "
+                    n={"quick": 100, "thorough": 420}, timeout={"quick": 900, "thorough": 5400}),
+               dict(cmd="obs_stall", imports=["Model.Pipe", "Model.PipeLts", "Model.PipeWatch", "Model.PipeCase"],
+                    case_type="PipeCase.case", check="PipeCase.check_case", shard=10, corpus="C04-stall",
+                    n={"quick": 20, "thorough": 200}, timeout={"quick": 900, "thorough": 5400})],
+    rule="obs_stall: blocking-command ending (5) x queue x batch / Receive / hooks x ping interval 50-200 ms x timeout 100-300 ms; "
+         "obs_fault: each case = a scripted exchange (2-6 goroutines keeping synchronous, pipelined, batched, client-side-cached calls, a Receive "
          "and a blocking BLPOP pending; ring / flow-buffer queue; RESP3 / RESP2; AlwaysPipelining or not) x the command index at which "
          "the fault happens x the fault (connection closed before executing / after executing without reply / after 3 bytes of the "
          "reply / Client.Close() / a failed dial followed by Close); quick tier: random sample, thorough tier: the full enumeration of "
@@ -24,9 +28,18 @@ MANIFEST = dict(
          "server's replies to the call's own commands followed by errors, never a hole (C04_results_are_replies_or_errors); after Close "
          "has passed its compare-and-swap every new call takes the error path and returns the latched error, which is ErrClosing when "
          "Close came first and never changes (C04_after_close, C04_error_path_returns_latched, C04_close_latches_errclosing, "
-         "C04_latched_error_is_stable). Tie: fault enumeration on a real client (every command index x before/after/mid-reply/Close) "
+         "C04_latched_error_is_stable). A connection that goes silent without being closed is failed by the keep-alive watchdog, which "
+         "stands back while the blocking-command signal blcksig is up: in the LTS extended with that counter and the watchdog's tick / "
+         "time-out (every state of which is a state of the pipe LTS) the counter is exactly the number of blocking calls in flight or "
+         "abandoned with a transport / context error - a blocking call that ended with a value, a null reply or an error reply has given "
+         "it back (C04_blcksig_exact, C04_blcksig_zero) - and then the watchdog's steps are enabled and close the connection and latch "
+         "the error without touching queue or calls (C04_watchdog_fails_silent_connection). Tie: fault enumeration on a real client (every command index x before/after/mid-reply/Close) "
          "with the oracle 'every call returns within the bound with an error or its own reply; once the client has noticed the failure a later call succeeds on "
-         "a fresh connection (one of at most 6 consecutive follow-up calls, each returning promptly); after Close calls return ErrClosing', and replay of every connection's frames through the model's reader.",
+         "a fresh connection (one of at most 6 consecutive follow-up calls, each returning promptly); after Close calls return ErrClosing', and replay of every connection's frames through the model's reader; silent-stall scenarios (obs_stall: a dedicated "
+         "connection, blocking commands ending with a value / null reply / error reply / cancelled / none, then a server that reads "
+         "but never answers, then a pipelined Do or DoMulti without deadline, Receive and the SetPubSubHooks error channel) with the "
+         "oracle 'each returns an error within 2 x ping interval + timeout + 2 s, then a freshly dedicated connection works', replayed "
+         "as a schedule of the extended LTS that must end with blcksig = 0 and hand the pending call an error.",
     note="Partial for scheduling/timing: termination within a wall-clock bound is measured by the tie, the theorems state non-stuckness and "
          "the state after termination. The mux's replacement of a broken wire (isBroken, CAS back to init) is exercised by the tie only "
          "(later call on a fresh connection), not modelled. One defect found by the tie was repaired: after a failed dial, calls on a closed "
